@@ -15,8 +15,11 @@ Scenario B (in process, gthread worker, fault injected into the socket only):
 Required: exactly one access record per request, carrying the status the
 client received; nothing but the announced body after the head.
 """
+import os as _os
+_TREE_UNDER_TEST = _os.environ.get("GVERIF_REPO") or _os.getcwd()   # the checkout under test (was the auditing agent's scratch worktree)
+
 import sys
-sys.path.insert(0, "/tmp/wa_C19")
+sys.path.insert(0, _TREE_UNDER_TEST)
 
 import io
 import logging
@@ -30,7 +33,7 @@ import textwrap
 import threading
 import time
 
-ROOT = "/tmp/wa_C19"
+ROOT = _TREE_UNDER_TEST
 problems = []
 
 
